@@ -66,9 +66,9 @@ Fixpoint reset (n : node) (v : val) {struct n} : val :=
   end.
 
 (* ---------- the method ----------
-   Reset(x any): T -> ErrMustPointerType; *T -> origin = x; **T -> origin = *x (panics on a nil **T);
-   anything else -> ErrUnsupportedType.  The body reads through origin at once: a typed nil
-   pointer panics as soon as the body has a statement. *)
+   Reset(x any): T -> ErrMustPointerType; *T -> origin = x; **T -> origin = *x when x is not nil;
+   anything else -> ErrUnsupportedType; then `if origin == nil { return ErrUnsupportedType }`
+   (fix: commit 7e52753; before it the body read through a nil origin at once). *)
 Definition body_touches (n : node) : bool :=
   match n_typ n with typeStruct => negb (match n_chld n with [] => true | _ => false end) | _ => true end.
 
@@ -78,6 +78,5 @@ Definition reset_method (n : node) (a : arg) : out (option val) :=
   | ANil | AForeign => Ret None (Some EUnsupported)
   | APtr (Some v) => Ret (Some (reset n v)) None
   | APtrPtr (Some (Some v)) => Ret (Some (reset n v)) None
-  | APtr None | APtrPtr (Some None) => if body_touches n then Panic PNilDeref else Ret None None
-  | APtrPtr None => Panic PNilDeref
+  | APtr None | APtrPtr (Some None) | APtrPtr None => Ret None (Some EUnsupported)
   end.
